@@ -42,6 +42,15 @@ def _workload():
                 q.parse_args(["--help"])
             except BaseException:
                 pass
+    try:  # URL / fsspec read modes (C03 enables them in some runs)
+        from jsonargparse import set_config_read_mode
+
+        set_config_read_mode(urls_enabled=True)
+        set_config_read_mode(fsspec_enabled=True)
+        import fsspec  # noqa: F401
+        import requests  # noqa: F401
+    except BaseException:
+        pass
     import shutil
 
     shutil.rmtree(d, ignore_errors=True)
